@@ -307,6 +307,10 @@ func c02Compare(c *Ctx, label string, t reflect.Type, doc string, pre func() ref
 		}
 	}
 	ok := pan == "" && (gerr == nil) == (serr == nil) && (gerr != nil || reflect.DeepEqual(g.Interface(), s.Interface()))
+	if !ok && pre != nil && strings.HasPrefix(label, "pre-shrunk-") && c02HasStaleCapacity(pre().Elem(), 0) {
+		c.Oracle(mode+"/"+label, fmt.Sprintf("%s <- %s", genTypeString(t), doc), "", "", false, "C02-slice-spare-capacity")
+		return
+	}
 	if !ok && pre != nil && strings.Contains(doc, "null") && c02HoldsPtrPtr(pre(), 0) {
 		c.Oracle(mode+"/"+label, fmt.Sprintf("%s <- %s", genTypeString(t), doc), "", "", false, "C02-null-interface-holding-ptrptr")
 		return
@@ -314,6 +318,83 @@ func c02Compare(c *Ctx, label string, t reflect.Type, doc string, pre func() ref
 	c.Oracle(mode+"/"+label, fmt.Sprintf("%s <- %s", genTypeString(t), doc),
 		fmt.Sprintf("%s err=%s panic=%s", c02Show(g.Interface()), errT(gerr), pan),
 		fmt.Sprintf("%s err=%v", c02Show(s.Interface()), serr), ok, c02ClassOf(t, doc, g, s, gerr, serr))
+}
+
+// c02Shrink cuts slices short (length only): the cut-off elements stay in the backing array
+func c02Shrink(v reflect.Value, rng *rand.Rand, depth int) {
+	if depth > 8 {
+		return
+	}
+	switch v.Kind() {
+	case reflect.Slice:
+		for i := 0; i < v.Len(); i++ {
+			c02Shrink(v.Index(i), rng, depth+1)
+		}
+		if v.Len() >= 1 && v.CanSet() && rng.Intn(2) == 0 {
+			v.Set(v.Slice(0, rng.Intn(v.Len())))
+		}
+	case reflect.Array:
+		for i := 0; i < v.Len(); i++ {
+			c02Shrink(v.Index(i), rng, depth+1)
+		}
+	case reflect.Struct:
+		for i := 0; i < v.NumField(); i++ {
+			if v.Field(i).CanSet() {
+				c02Shrink(v.Field(i), rng, depth+1)
+			}
+		}
+	case reflect.Ptr:
+		if !v.IsNil() {
+			c02Shrink(v.Elem(), rng, depth+1)
+		}
+	}
+}
+
+// c02HasStaleCapacity: some slice has a non-zero element between its length and its capacity
+func c02HasStaleCapacity(v reflect.Value, depth int) bool {
+	if depth > 8 {
+		return false
+	}
+	switch v.Kind() {
+	case reflect.Slice:
+		if v.Cap() > v.Len() {
+			full := v.Slice(0, v.Cap())
+			for i := v.Len(); i < v.Cap(); i++ {
+				if !full.Index(i).IsZero() {
+					return true
+				}
+			}
+		}
+		for i := 0; i < v.Len(); i++ {
+			if c02HasStaleCapacity(v.Index(i), depth+1) {
+				return true
+			}
+		}
+	case reflect.Array:
+		for i := 0; i < v.Len(); i++ {
+			if c02HasStaleCapacity(v.Index(i), depth+1) {
+				return true
+			}
+		}
+	case reflect.Struct:
+		for i := 0; i < v.NumField(); i++ {
+			if c02HasStaleCapacity(v.Field(i), depth+1) {
+				return true
+			}
+		}
+	case reflect.Ptr, reflect.Interface:
+		if !v.IsNil() {
+			return c02HasStaleCapacity(v.Elem(), depth+1)
+		}
+	case reflect.Map:
+		it := v.MapRange()
+		for it.Next() {
+			if c02HasStaleCapacity(it.Value(), depth+1) {
+				return true
+			}
+		}
+	}
+	return false
 }
 
 var c02TextUnmarshalerT = reflect.TypeOf((*interface{ UnmarshalText([]byte) error })(nil)).Elem()
@@ -488,7 +569,29 @@ func runC02(c *Ctx) {
 					p.Elem().Set(pg.Value(t, 2, GenOpt{Finite: true, ValidUTF8: true, ValidNum: true}))
 					return p
 				}
-				c02Compare(c, "pre-"+label, t, doc, pre, "unmarshal")
+				// every entry point, several documents (members missing: what is already there stays)
+				for pi, pmode := range []string{"unmarshal", "decoder", "usenumber", "disallow"} {
+					pdoc := doc
+					if pi > 0 {
+						pdoc = (&docGen{r: rng, noise: []int{0, 0, 5, 0}[pi]}).forType(t, 4)
+						if !stdjson.Valid([]byte(pdoc)) {
+							continue
+						}
+					}
+					c02Compare(c, "pre-"+label, t, pdoc, pre, pmode)
+				}
+				// the same with slices cut short: the elements between length and capacity keep what they held
+				shrunk := func() reflect.Value {
+					p := pre()
+					c02Shrink(p.Elem(), rand.New(rand.NewSource(seed+1)), 0)
+					return p
+				}
+				for _, pmode := range []string{"unmarshal", "decoder"} {
+					pdoc := (&docGen{r: rng, noise: 0}).forType(t, 4)
+					if stdjson.Valid([]byte(pdoc)) {
+						c02Compare(c, "pre-shrunk-"+label, t, pdoc, shrunk, pmode)
+					}
+				}
 			}
 		}
 	}, func(k int, rng *rand.Rand) string {
